@@ -35,7 +35,9 @@ def load_baseline_sigs() -> Dict[str, List[str]]:
     for l in BASELINE_FILE.read_text().splitlines():
         if l.startswith("sig:") and "=" in l:
             q, ps = l[4:].split("=", 1)
-            out[q.strip()] = [x for x in ps.strip().split(",") if x]
+            ps, _, loc = ps.strip().partition("|")
+            out[q.strip()] = [x for x in ps.split(",") if x]
+            out["locals:" + q.strip()] = [x for x in loc.split(",") if x]
     return out
 
 
@@ -71,8 +73,8 @@ def restore_parameter_names(trees: Dict[str, ast.Module]) -> List[Tuple[str, str
             continue
         gone = [o for o in old if o not in cur]
         came = [c for c in cur if c not in old]
-        if len(gone) != len(came):
-            continue
+        if len(gone) != len(came) or set(came) & set(sigs.get("locals:" + q, [])):
+            continue        # a pinned local that became a parameter is a computation moved to the caller, not a renaming
         if len(gone) == 1:
             mp = {came[0]: gone[0]}
         elif all(cur.index(c) == old.index(o) for c, o in zip(came, gone)):
@@ -659,6 +661,8 @@ class Inliner:
             a = bound[p]
             if p not in stored and _simple(a) and not (_names_in(a) & (stored - {p})):
                 subst[p] = a
+            elif isinstance(a, ast.Name) and a.id == p and isinstance(st, ast.Return) and st.value is call:
+                continue        # `return helper(x=x)`: the caller's x is dead after the call, the helper may go on using the name
             else:
                 fresh = p if (p not in caller_names) else p + tag
                 rename[p] = fresh
